@@ -70,8 +70,10 @@ def run_deductive(P, tier, R):
         except interp.EngineLimit as e:
             paths, limits = 0, ["%s: %s" % (c.short, e)]
         except Exception as e:
-            R.errors.append("engine crash in %s: %s" % (q, traceback.format_exc()[-1500:]))
-            continue
+            # the engine met a value it has no semantics for (typically a callee invoked with an argument of an
+            # unexpected kind after a change): VC generation failed for this function - handled like a tool limit
+            paths, limits = 0, ["%s: engine exception %s: %s" % (c.short, type(e).__name__, str(e)[:200])]
+            R.engine_exceptions = getattr(R, "engine_exceptions", []) + [traceback.format_exc()[-1200:]]
         per_func[q] = dict(name=q, file=os.path.relpath(mod.path, "/repo"), lines=[node.lineno, node.end_lineno],
                            source_sha256=mod.func_hash(qq), paths=paths, obligations_generated=len(ex.obls) - n0,
                            vcgen_s=round(time.time() - t0, 3), tool_limits=limits)
@@ -371,9 +373,21 @@ def main():
         R.violations.append(name)
         exit_code = 1
     if R.limits and not P.get("allow_limits"):
-        # a function left the supported subset: decided by its bounded stand-in only; reported, never silently passed
+        # VC generation failed for a function whose obligations are discharged on the unchanged tree: those obligations are
+        # no longer discharged.  Reported as a violation without a failing input (the reason is the tool limit), unless a
+        # bounded stand-in of the same function already produced a witness in this run
         for l in R.limits:
-            print("TOOL-LIMIT (function falls back to its bounded stand-in for this run): %s" % l)
+            fshort = l.split(":")[0].split("[")[0]
+            print("TOOL-LIMIT: %s" % l)
+            if any(v.startswith(fshort) for v in R.violations):
+                continue
+            name = "%s#vc-generation" % fshort
+            c = contract.REGISTRY.get("ecdsa." + fshort)
+            path = write_replay(a.prop, name, c, None, None, "VC generation stopped (construct outside the supported subset): %s" % l, tier)
+            print("VIOLATION property=%s replay=%s no-failing-input-found" % (a.prop, path))
+            print("  the obligations of %s can no longer be generated, hence are not discharged: %s" % (fshort, l))
+            R.violations.append(name)
+            exit_code = 1
     n_obl = len(R.obl)
     n_ok = sum(1 for x in R.obl.values() if x["ok"] == x["n"])
     floor = P.get("min_obligations", 1)
